@@ -63,6 +63,9 @@ def watch : List String :=
    "check_known", "check_known_head", "check_known_store", "apply_block", "apply_block_to_txhashset",
    "apply_header", "apply_input", "apply_output", "apply_kernel", "rewind", "rewind_and_apply_fork",
    "rewind_and_apply_header_fork", "process_block_header", "add_to_pool", "add_to_txpool", "add_to_stempool",
-   "batch_verify", "verify", "verify_size", "verify_rel_height", "verify_nrd_relative_height", "commit_index"]
+   "batch_verify", "verify", "verify_size", "verify_rel_height", "verify_nrd_relative_height", "commit_index",
+   -- phase 5 (chain.rs API)
+   "process_block", "process_block_single", "process_block_headers", "is_known", "check_orphan",
+   "validate_tx_against_utxo", "validate_tx_kernels", "verify_tx_lock_height"]
 
 end GV.Props.XlateShape
